@@ -3,6 +3,7 @@ import json, os
 V = os.path.dirname(os.path.dirname(os.path.abspath(__file__)))
 props = [json.loads(l) for l in open(os.path.join(V, 'properties.jsonl'))]
 NA = {
+ 'C01': 'byte-for-byte round trip over all contents/dedup structures/configurations is a relation between runtime values (segment index arithmetic, reconstruction by segment list); the one mechanism with a structural core, the index shift and hash patch of DataAggregator::merge_in/finalize, was prototyped as R01a/R01b in round 6 and withdrawn because the rule raised reports on 5 of 6 independent behaviour-preserving refactorings (DESIGN.md section 5 C01, section 7); neighbouring structural clauses are decided under C02, C11, C14, C15, C16, C17',
 }
 PENDING = 'static-analysis rule set for this property is not armed yet in this round (see DESIGN.md §5); not claimed until its check exists'
 TRUST = ("Trusted: rustc's MIR construction/type checker (mir_promoted bodies, nightly), the xetlint extractor, documented semantics of std/tokio "
